@@ -34,7 +34,7 @@ BUDGET_S = {'quick': 240, 'thorough': 900}
 
 def bounds(tier):
     P = pools()
-    return {'macros': len(P['macros']), 'arguments': len(P['args']), 'premise_lists': 'singletons + %s seeded pairs + %s triples per macro' % ((20, 5) if tier == 'quick' else (600, 100)), 'harvested_library_steps': [list(h) for h in HARVEST[tier]], 'numeral_goals': len(numeral_goals()), 'terms': len(P['terms'])}
+    return {'macros': len(P['macros']), 'arguments': len(P['args']), 'premise_lists': 'singletons + %s seeded pairs + %s triples per macro' % ((20, 5) if tier == 'quick' else (600, 100)), 'harvested_library_steps': [list(h) for h in HARVEST[tier]], 'numeral_and_shape_goals': '%d (numeral edge cases of the arithmetic macros; nat_norm on all pairs of 20 small polynomial sides; intros with assumption / exists-fact premises and argument lists in every order)' % len(numeral_goals()), 'terms': len(P['terms'])}
 
 
 def setup(tier, seed):
@@ -301,6 +301,33 @@ def numeral_goals():
             g.append(('fun_upd_eval', mk_fun_upd(f, Nat(m), Nat(4))(Nat(n)), []))
             g.append(('nat_norm', Eq(Nat(m) + Nat(n), Nat(m + n)), []))
             g.append(('nat_norm', Eq(Nat(m) * Nat(n), Nat(m * n)), []))
+    # nat_norm on equations between small polynomial expressions: every pair of (atom | non-atom) sides, both orientations
+    x, y = Var('x', NatType), Var('y', NatType)
+    Suc = T.Const('Suc', TFun(NatType, NatType))
+    sides = [x, y, Nat(0), Nat(2), Nat(0) * y + x, x + Nat(0), Suc(x), x * Nat(1), x + y, y + x, Suc(Nat(1)), Nat(1) + Nat(1), Nat(0) * x + Nat(0), x * y, y * x + Nat(0), Suc(x) + y, Suc(x + y),
+             x + Nat(1), (x + Nat(1)) * y, x * y + y]
+    for a in sides:
+        for b in sides:
+            g.append(('nat_norm', Eq(a, b), []))
+    # intros: assumption / exists-fact premises in both orders, final premise of the shapes exE needs, exists arguments in premise
+    # order, innermost-first, with a stale or missing entry
+    from kernel.type import TVar, BoolType
+    from kernel.term import Forall, Exists, Implies
+    from kernel.thm import Thm
+    A = TVar('a')
+    P, Q = Var('P', TFun(A, BoolType)), Var('Q', TFun(A, BoolType))
+    u, w = Var('u', A), Var('w', A)
+    C, p = Var('C', BoolType), Var('p', BoolType)
+    exP, exQ = Exists(u, P(u)), Exists(u, Q(u))
+    E1, E2, Ap = Thm(exP, exP), Thm(exQ, exQ), Thm(p, p)
+    finals = [Thm(Forall(u, Implies(P(u), C))), Thm(Forall(w, Implies(Q(w), Forall(u, Implies(P(u), C))))), Thm(Forall(u, Implies(P(u), Forall(w, Implies(Q(w), C))))), Thm(C), Thm(C, p),
+              Thm(Forall(w, Implies(Q(w), C)), exP), Thm(Forall(u, Implies(P(u), C)), exQ), Thm(Forall(u, Implies(P(u), C)), p)]
+    intro_sets = [[E1], [E2], [E1, E2], [E2, E1], [Ap, E1], [E1, Ap], [Ap], [E1, Ap, E2], [E1, E1]]
+    arg_sets = [[], [exP], [exQ], [exP, exQ], [exQ, exP], [p, exP], [exP, p], [exP, exP]]
+    for ins in intro_sets:
+        for fin in finals:
+            for ar in arg_sets:
+                g.append(('intros', list(ar), ins + [fin]))
     _N['g'] = g
     return g
 
